@@ -310,6 +310,15 @@ def run_real(case):
                 asd_exc = [[kk, V.observe(v)] for kk, v in g._asdict(exclude=sel).items()]
             except Exception as e:
                 asd, asd_sel, asd_exc, sel = {"error": type(e).__name__}, None, None, []
+            # the group through a field rewriter (rdump -F over grouped records): a plain record of the selected fields
+            # with the values of the members that provide them
+            try:
+                fsel = [kk for kk in keys if not kk.startswith("_") and kk != "nonexistent"]
+                pr = RecordFieldRewriter(fields=list(fsel)).rewrite(g)
+                projected = {"fields": fsel, "out": [[kk, V.observe(getattr(pr, kk))] for kk in fsel],
+                             "desc": [list(t_) for t_ in pr._desc.get_field_tuples()]}
+            except Exception as e:          # noqa: BLE001
+                projected = {"error": type(e).__name__ + ": " + str(e)[:80]}
             # transport: the group through a binary stream and through the JSON packer (flat view)
             transport = {}
             try:
@@ -339,7 +348,7 @@ def run_real(case):
                 transport["init_from_record"] = [[kk, V.observe(getattr(ifr, kk))] for kk in ifr.__slots__]
             except Exception as e:          # noqa: BLE001
                 transport["init_from_record"] = {"error": type(e).__name__}
-            res = {"inputs": before, "inputs_after": [obs_rec(x) for x in g.records], "keys": keys, "values": vals, "transport": transport,
+            res = {"inputs": before, "inputs_after": [obs_rec(x) for x in g.records], "keys": keys, "values": vals, "transport": transport, "projected": projected,
                    "asdict": asd, "asdict_sel": asd_sel, "asdict_exc": asd_exc, "sel": sel,
                    "output": {"name": g._desc.name, "fields": [list(t) for t in g._desc.get_field_tuples()]}}
             if case.get("assign"):
@@ -572,6 +581,17 @@ def oracle(case, obs):
                 continue            # attribute access on the group serves its own attribute (see GROUP_OWN)
             if v != w:
                 return f"grouped.{kk} is {json.dumps(v)[:70]} instead of the first member's {json.dumps(w)[:70]}"
+        pj = obs.get("projected")
+        if pj is not None:
+            if "error" in pj:
+                return f"RecordFieldRewriter(fields=...) over the group raised {pj['error']}"
+            typ_ = dict((n_, t_) for t_, n_ in want_fields)
+            if pj["desc"] != [[typ_[n_], n_] for n_ in pj["fields"] if n_ in typ_]:
+                return f"group through a field rewriter: fields {pj['desc']} instead of the selected {pj['fields']}"
+            for kk, v in pj["out"]:
+                if kk in vals and v != vals[kk]:
+                    return (f"group through a field rewriter: field {kk} is {json.dumps(v)[:70]} instead of the providing "
+                            f"member's {json.dumps(vals[kk])[:70]}")
         if "asdict" in obs:
             if isinstance(obs["asdict"], dict):
                 return f"grouped._asdict() raised {obs['asdict']['error']}"
